@@ -424,7 +424,10 @@ def check(pid, tier):
                                 witness=_hole_witness(h)))
             else:
                 obs.append(dict(id=oid, status="proved", unit=f"{h['module']}:{h['line']}", sample=f"{h['hole']} : {k}"))
-    payloads = [(pid, pos, s) for pos in POSITIONS for s in (ALPHABET if tier == "thorough" else ALPHABET[:12] + ALPHABET[-1:])]
+    payloads = [(pid, pos, s) for pos in POSITIONS for s in ALPHABET
+                # Python itself refuses a class attribute named __class__ holding a string (type.__setattr__ raises), so
+                # that name cannot be a discriminator field of any hierarchy: not a schema mashumaro can be given
+                if not (pos == "discriminator_field" and s == "__class__")]
     res = runner.run_pool(alphabet_task, payloads, chunks=4)
     crashes = []
     nb = 0
